@@ -22,9 +22,9 @@ static struct {
 	int keyd[3]; uint64_t keyd_stamp[3];
 	int done, handler_runs, cancel_runs;
 	char mark, ctx1, ctx2, k0, k1, k2;
-	int expect_ctx2, susp_open, wait_for_others, arm_rel, arm_code;
+	int expect_ctx2, susp_open, wait_for_others, arm_rel, arm_code, no_cancel;
 	sim_event suspended_by_1, susp_item_done[MAXC]; int susp_item_sent[MAXC];
-	sim_event go;
+	sim_event go, handler_seen;
 } L;
 
 static void finalizer_obj(void *ctx) {
@@ -182,14 +182,16 @@ static void scen_group(void) {
 }
 
 /* ---- scenario 2: timer / data source released with events in flight ---- */
-static void src_handler(void *c) { (void)c; L.handler_runs++; L.items_started++; (void)dispatch_source_get_data(L.src); sim_point(); L.items_ended++; L.last_item_end = h_stamp(); h_progress(); }
+static void src_handler(void *c) { (void)c; L.handler_runs++; L.items_started++; (void)dispatch_source_get_data(L.src); sim_point(); L.items_ended++; L.last_item_end = h_stamp(); sim_event_signal(&L.handler_seen); h_progress(); }
 static void src_cancel(void *c) { (void)c; L.cancel_runs++; h_progress(); }
 static void *source_client(void *arg) {
 	int c = (int)(intptr_t)arg;
 	sim_event_wait(&L.go, LIVENESS_NS);
 	for (int i = 0; i < L.nitems_per; i++) { if (!L.nested) dispatch_source_merge_data(L.src, 1); sim_sleep_ns((uint64_t)(10 + 20 * i) * USEC); }
-	if (c == 0) dispatch_source_cancel(L.src);
+	if (c == 0 && !L.no_cancel) dispatch_source_cancel(L.src);
 	else if (L.susp && c == 1) { L.susp_open++; dispatch_suspend(L.src); sim_point(); dispatch_resume(L.src); L.susp_open--; }
+	// the reference dropped right behind a handler invocation: the worker may still be inside the source's invoke
+	if (L.wait_for_others && c == L.nclients - 1) { if (!L.nested) dispatch_source_merge_data(L.src, 1); sim_event_wait(&L.handler_seen, 2 * MSEC); for (int k = (int)(RC.seed >> 40 & 15); k > 0; k--) sim_point(); }
 	release_obj("client");
 	L.done++; h_progress();
 	return NULL;
@@ -213,9 +215,9 @@ static void scen_source(void) {
 	h_end_fault_phase(th, L.nclients, 5 * NSEC);
 	L.items_submitted = L.items_ended;   // handler invocations are not individually owed
 	if (h_wait_until(quiesced, NULL, LIVENESS_NS)) h_stuck("finalizer-missing", "the source's finalizer did not run after it was cancelled and every reference was dropped");
-	{ uint64_t t0 = sim_now(); while (!L.cancel_runs && sim_now() - t0 < LIVENESS_NS) sim_sleep_ns(100 * MSEC); }
+	if (!L.no_cancel) { uint64_t t0 = sim_now(); while (!L.cancel_runs && sim_now() - t0 < LIVENESS_NS) sim_sleep_ns(100 * MSEC); }
 	h_settle(50 * MSEC);
-	if (L.cancel_runs != 1) h_viol("cancel-handler-count", "the cancellation handler ran %d times", L.cancel_runs);
+	if (!L.no_cancel && L.cancel_runs != 1) h_viol("cancel-handler-count", "the cancellation handler ran %d times", L.cancel_runs);
 	if (L.f_obj.stamp < L.last_item_end) h_viol("finalizer-early", "the source's finalizer ran before its last handler invocation had finished");
 	if (OWNED(L.obj)) h_viol("not-freed", "the source's memory is still allocated after its finalizer ran");
 	if (L.tq_kind == 0) dispatch_release(L.root);
@@ -389,13 +391,14 @@ static void c17_run(void) {
 	L.nclients = g_range(2, MAXC); L.nitems_per = g_range(0, 4);
 	L.susp = g_chance(1, 2); L.nested = g_chance(1, 2); L.last_from_item = g_chance(1, 3); L.set_ctx_late = g_chance(1, 4);
 	if (L.scenario != 0) { L.last_from_item = 0; L.set_ctx_late = 0; }
+	if (L.scenario == 2) L.no_cancel = g_chance(1, 2);   // a source that is released without ever being cancelled
 	L.wait_for_others = g_chance(1, 2);
 	if (g_chance(2, 3)) { L.arm_rel = g_range(1, 70); L.arm_code = g_range(1, 4); }
 	if (L.scenario == 0 && g_chance(1, 3)) { L.last_from_item = 1; if (L.nitems_per < 2) L.nitems_per = 2; }
 	static const char *const sn[] = { "queue (context, finalizer, specific keys) targeting a queue its creator has already released", "group released while non-empty", "source released with events in flight",
 		"semaphore shared by signallers and waiters", "I/O channel released with a read in flight", "data objects built on one buffer released from several threads" };
 	h_sample("%s; %d clients x %d items%s%s%s%s\n", sn[L.scenario], L.nclients, L.nitems_per, L.susp ? ", suspend/resume" : "", L.nested ? (L.scenario == 2 ? ", timer" : L.scenario == 4 ? ", close(STOP)" : ", nested submission") : "",
-		L.last_from_item ? ", one reference dropped from inside the last item" : "", L.set_ctx_late ? ", context replaced before the last release" : "");
+		L.last_from_item ? ", one reference dropped from inside the last item" : L.no_cancel ? ", never cancelled" : "", L.set_ctx_late ? ", context replaced before the last release" : "");
 	h_announce();
 	switch (L.scenario) { case 0: scen_queue(); break; case 1: scen_group(); break; case 2: scen_source(); break; case 3: scen_sema(); break; case 4: scen_io(); break; default: scen_data(); }
 	RES.counters[0] = L.items_ended; RES.counters[1] = L.releases_returned; RES.counters[2] = L.f_obj.count; RES.counters[3 + L.scenario] = 1;   /* 3..8 */
